@@ -366,9 +366,17 @@ func (s *Sim) step(a Action) {
 		if a.Ans != nil {
 			s.answer(idx, a.Ans)
 		}
+	case "holdps":
+		if s.heldReq == nil {
+			s.holdPS = true
+		}
+	case "releaseps":
+		s.releasePS()
 	case "stop1":
+		s.releasePS()
 		s.mstep("stop1", nil, func() { s.stop1() })
 	case "stop2":
+		s.releasePS()
 		s.mstep("stop2", nil, func() { s.stop1(); s.stop2() })
 	default:
 		s.harnessFail("unknown action %q", a.Op)
